@@ -35,14 +35,34 @@ def main():
                 other[tid] = kids[0]
     finally:
         os.unlink(junit)
-        import shutil
-        shutil.rmtree(xdg, ignore_errors=True)
     if args:  # subset run: only judge the tests that were collected
         stable = {t for t in stable if t in passed or t in other}
     missing = sorted(stable - passed)
+    if 0 < len(missing) <= 12:
+        # wall-clock sensitive tests (pytest-timeout of 20-40 s) fail on a busy machine: re-run the few failures alone
+        ids = []
+        for t in missing:
+            cls, name = t.split("::", 1)
+            ids.append(cls.replace(".", "/") + ".py::" + name)
+        fd2, junit2 = tempfile.mkstemp(suffix=".xml", dir="/dev/shm"); os.close(fd2)
+        subprocess.run(["/venv/bin/python", "-m", "pytest", "-q", "-p", "no:cacheprovider", "--timeout=900", "-n", "2",
+                        f"--junitxml={junit2}", *ids], cwd=tree, env=env, stdout=subprocess.PIPE, stderr=subprocess.STDOUT, text=True)
+        try:
+            for tc in ET.parse(junit2).getroot().iter("testcase"):
+                tid = f"{tc.get('classname')}::{tc.get('name')}"
+                if not [c.tag for c in tc if c.tag in ("failure", "error", "skipped")]:
+                    passed.add(tid)
+                    print("  PASSED-ON-RETRY", tid)
+        except Exception as e:
+            print("  retry failed:", e)
+        finally:
+            os.unlink(junit2)
+        missing = sorted(stable - passed)
     print(p.stdout[-1500:])
     print(f"SUITE tree={tree} passed={len(passed)} stable_expected={len(stable)} stable_missing={len(missing)}")
     for t in missing[:40]:
         print("  NOT-PASSED", t, other.get(t, "not-run"))
+    import shutil
+    shutil.rmtree(xdg, ignore_errors=True)
     sys.exit(0 if not missing and len(stable) > 0 else 1)
 main()
